@@ -110,6 +110,11 @@ def normalize_case(case: dict) -> dict:
         raise ValueError('attached mode has no managers')
     if c['mode'] == 'detached' and c['victim'] == 'midmanager':
         raise ValueError('midmanager exists only in detached3')
+    if c['phase'] == 'after_submit' and c['call'] == 'compile':
+        # compile() is submit()+result(); a kill "right after submit" can only
+        # be placed between the two, which is exactly call == 'result'
+        c['call'] = 'result'
+        c['call_normalized_from'] = 'compile'
     c['workers'] = int(c['workers'])
     c['managers'] = int(c['managers'])
     c['delay'] = float(c['delay'])
@@ -173,10 +178,26 @@ def _kill_everything(run_id: str, pgid: int | None) -> list[dict]:
     return list(killed.values())
 
 
-def _run_once(case: dict, hard_timeout: float) -> dict:
+def _acquire_lock(lockf: Any, lock_wait: float | None) -> bool:
+    if lock_wait is None:
+        fcntl.flock(lockf, fcntl.LOCK_EX)
+        return True
+    end = time.monotonic() + lock_wait
+    while True:
+        try:
+            fcntl.flock(lockf, fcntl.LOCK_EX | fcntl.LOCK_NB)
+            return True
+        except (BlockingIOError, PermissionError):
+            if time.monotonic() >= end:
+                return False
+            time.sleep(0.5)
+
+
+def _run_once(
+    case: dict, hard_timeout: float, lock_wait_max: float | None = None,
+) -> dict:
     run_id = uuid.uuid4().hex
     scratch = SCRATCH / run_id
-    scratch.mkdir(parents=True, exist_ok=True)
     repo = os.environ.get('VERIF_REPO', '/repo')
     env = dict(os.environ)
     env['PYTHONPATH'] = f'{repo}:{ROOT}'
@@ -194,9 +215,14 @@ def _run_once(case: dict, hard_timeout: float) -> dict:
     out = b''
     t_lock = time.time()
     with open(LOCK_PATH, 'w') as lockf:
-        fcntl.flock(lockf, fcntl.LOCK_EX)
+        if not _acquire_lock(lockf, lock_wait_max):
+            return {
+                'lock_busy': True, 'case': case,
+                'lock_wait_seconds': round(time.time() - t_lock, 3),
+            }
         lock_wait = time.time() - t_lock
         t_run = time.time()
+        scratch.mkdir(parents=True, exist_ok=True)
         proc = None
         errf = open(scratch / 'stderr.log', 'wb') if keep else None
         try:
@@ -244,6 +270,7 @@ def _run_once(case: dict, hard_timeout: float) -> dict:
     res['lock_wait_seconds'] = round(lock_wait, 3)
     res['lock_held_seconds'] = round(held, 3)
     res['run_id'] = run_id
+    res['repo'] = repo
     if keep:
         res['log_path'] = str(scratch / 'stderr.log')
     else:
@@ -251,25 +278,64 @@ def _run_once(case: dict, hard_timeout: float) -> dict:
     return res
 
 
-def run_case(case: dict, hard_timeout: float = 150.0, retries: int = 1) -> dict:
+def _classify_infra(res: dict) -> None:
+    """Mark runs that say nothing about the property ('infra': True)."""
+    case = res.get('case') or {}
+    reason = None
+    if res.get('error'):
+        reason = f"{res['error']}: {str(res.get('error_text', ''))[-160:]}"
+    elif res.get('runner_timeout'):
+        reason = 'runner_timeout'
+    elif 'client' not in res:
+        reason = 'no_client_outcome'
+    elif res.get('victim_already_dead'):
+        reason = 'victim_already_dead'
+    elif not res.get('phase_reached'):
+        if res.get('call_done_before_kill'):
+            if res.get('client') == 'raised':
+                # nothing had been killed yet: not an observation about C14
+                reason = 'client_call_failed_before_the_kill: ' \
+                    + str(res.get('exc_text'))[:120]
+            # 'returned' before the kill: genuine ('result_complete' holds)
+        elif case.get('phase') in ('during', 'during_shutdown') \
+                and not res.get('flag_seen'):
+            reason = 'workload_not_started_in_time'
+    res['infra'] = reason is not None
+    res['infra_reason'] = reason
+
+
+def run_case(
+    case: dict, hard_timeout: float = 150.0, retries: int = 1,
+    lock_wait: float | None = None,
+) -> dict:
     """
     Run one kill scenario against a real runtime; see the module docstring.
 
     The machine-wide runtime lock is held exactly while the runner (and the
     cleanup of its processes) is alive; waiting for the lock does not count
-    towards `hard_timeout` ('lock_wait_seconds').  Infrastructure failures
-    (runtime did not come up, port taken) are retried `retries` times; they
-    are reported under 'error' and are never a verdict.
+    towards `hard_timeout` ('lock_wait_seconds').  `lock_wait` bounds that
+    wait: if the lock is not obtained in time nothing is started and
+    `{'lock_busy': True, 'lock_wait_seconds': ..}` is returned (None: wait
+    forever).  Infrastructure failures (runtime did not come up, port taken,
+    no runner output) are retried `retries` times.  Every returned dict has
+    'infra' (bool) and 'infra_reason': infra runs are never a verdict;
+    genuine observations (client hang after the kill, survivors, incomplete
+    result) are never marked infra.
     """
     case = normalize_case(case)
     attempts = 0
     while True:
         attempts += 1
-        res = _run_once(case, hard_timeout)
+        res = _run_once(case, hard_timeout, lock_wait)
         res['attempts'] = attempts
+        if res.get('lock_busy'):
+            res['infra'] = True
+            res['infra_reason'] = 'lock_busy'
+            return res
         if res.get('error') in INFRA_ERRORS and attempts <= retries:
             time.sleep(1.0)
             continue
+        _classify_infra(res)
         return res
 
 
@@ -278,38 +344,58 @@ def run_case(case: dict, hard_timeout: float = 150.0, retries: int = 1) -> dict:
 # --------------------------------------------------------------------------
 
 def default_cases(rng: random.Random, n: int) -> list[dict]:
-    """A seeded mix of `n` cases; the first ones cover the core matrix."""
+    """
+    A seeded list of `n` cases.
+
+    The first 6 are the short core (2 workers, 1 manager per level, 'sleep'
+    workload, delays 0.2-1.0 s): attached/worker, detached/worker,
+    detached/manager, exactly one detached3/midmanager, exactly one
+    stop_first case, and one kill-before-submit case.  Cases 7.. widen the
+    matrix (map/quick workloads, status/compile/submit calls, detached3
+    level-1 manager, during_shutdown, more processes); beyond that the cases
+    are random.
+    """
     def mk(mode: str, victim: str, phase: str, workload: str, call: str,
            stop_first: bool = False, **kw: Any) -> dict:
         c = {
             'mode': mode, 'victim': victim, 'phase': phase,
             'workload': workload, 'call': call, 'stop_first': stop_first,
-            'workers': rng.randint(1, 3),
-            'managers': 1 if mode == 'attached' else rng.randint(1, 2),
-            'delay': round(rng.choice([0.0, 0.2, 0.5, 1.0, 2.0]), 2),
+            'workers': 2, 'managers': 1,
+            'delay': rng.choice([0.2, 0.5, 1.0]),
             'seed': rng.randrange(1 << 16),
         }
         c.update(kw)
         return c
 
-    core = [
+    def wide(**kw: Any) -> dict:
+        d = {'workers': rng.randint(1, 3), 'managers': rng.randint(1, 2)}
+        d.update(kw)
+        return d
+
+    head = [
         mk('attached', 'worker', 'during', 'sleep', 'result'),
-        mk('attached', 'worker', 'during', 'map', 'result'),
-        mk('attached', 'worker', 'idle', 'sleep', 'result'),
-        mk('attached', 'worker', 'after_submit', 'sleep', 'result'),
-        mk('attached', 'worker', 'during_shutdown', 'sleep', 'result'),
-        mk('detached', 'worker', 'during', 'map', 'result'),
+        mk('detached', 'worker', 'during', 'sleep', 'result'),
         mk('detached', 'manager', 'during', 'sleep', 'result'),
         mk('detached3', 'midmanager', 'during', 'sleep', 'result'),
+        mk('attached', 'worker', 'during', 'sleep', 'status', True),
+        mk('attached', 'worker', 'idle', 'sleep', 'result'),
+    ]
+    if n <= len(head):
+        return head[:n]
+    rest = [
+        mk('attached', 'worker', 'during', 'map', 'result'),
+        mk('attached', 'worker', 'after_submit', 'sleep', 'result'),
+        mk('attached', 'worker', 'during_shutdown', 'sleep', 'result'),
+        mk('detached', 'worker', 'during', 'map', 'result', **wide()),
         mk('detached3', 'manager', 'during', 'map', 'result', managers=2),
         mk('attached', 'worker', 'during', 'map', 'result', True,
-           workers=2, pick='root'),
-        mk('detached', 'worker', 'during', 'map', 'result', True, workers=2),
-        mk('detached', 'manager', 'during', 'map', 'result', True),
-        mk('attached', 'worker', 'during', 'sleep', 'status'),
-        mk('attached', 'worker', 'during', 'map', 'compile'),
+           pick='root'),
+        mk('detached', 'worker', 'during', 'map', 'result', True,
+           pick='root'),
+        mk('detached', 'manager', 'during', 'map', 'result', True, **wide()),
+        mk('attached', 'worker', 'during', 'map', 'compile', **wide()),
         mk('attached', 'worker', 'during', 'sleep', 'submit'),
-        mk('detached', 'worker', 'during', 'sleep', 'status'),
+        mk('detached', 'worker', 'during', 'sleep', 'status', **wide()),
         mk('detached', 'manager', 'during', 'map', 'compile', managers=2),
         mk('detached', 'worker', 'idle', 'quick', 'result'),
         mk('detached', 'manager', 'after_submit', 'quick', 'result'),
@@ -317,16 +403,11 @@ def default_cases(rng: random.Random, n: int) -> list[dict]:
         mk('detached3', 'midmanager', 'during', 'map', 'status', True),
         mk('detached3', 'manager', 'idle', 'sleep', 'compile'),
         mk('detached', 'worker', 'during_shutdown', 'map', 'result'),
-        mk('detached3', 'worker', 'during', 'map', 'submit'),
+        mk('detached3', 'worker', 'during', 'map', 'submit', **wide()),
     ]
-    if n <= len(core):
-        head = core[:9]
-        if n <= len(head):
-            return head[:n]
-        rest = core[9:]
-        rng.shuffle(rest)
-        return head + rest[:n - len(head)]
-    out = list(core)
+    tail = rest[5:]
+    rng.shuffle(tail)
+    out = head + rest[:5] + tail
     while len(out) < n:
         mode = rng.choice(MODES)
         victim = rng.choice({
@@ -338,8 +419,9 @@ def default_cases(rng: random.Random, n: int) -> list[dict]:
             mode, victim, rng.choice(PHASES), rng.choice(WORKLOADS),
             rng.choice(CALLS), rng.random() < 0.35,
             pick=rng.choice([None, 'root', 'nonroot']),
+            delay=rng.choice([0.0, 0.2, 0.5, 1.0, 2.0]), **wide(),
         ))
-    return out
+    return out[:n]
 
 
 # --------------------------------------------------------------------------
@@ -623,20 +705,36 @@ class _Runner:
                 S['stop_time'] = time.time()
                 time.sleep(float(case['stop_wait']))
             S['call_done_before_kill'] = self.call_done.is_set()
-            S['flag_at_kill'] = os.path.exists(self.flag)
+            S['flag_at_kill'] = os.path.exists(self._ready_flag())
+            S['map_rounds_at_kill'] = self._rounds()
             os.kill(vpid, signal.SIGKILL)
         except ProcessLookupError:
             S['victim_already_dead'] = True
         S['kill_time'] = time.time()
         self.kill_done.set()
 
+    def _ready_flag(self) -> str:
+        """File whose existence means 'the workload is in full swing'."""
+        if self.case['workload'] == 'map' \
+                and self.case.get('wait_rounds', True):
+            return self.flag + '.rounds'
+        return self.flag
+
+    def _rounds(self) -> int | None:
+        try:
+            with open(self.flag + '.rounds') as f:
+                return int(f.read().split()[0])
+        except (OSError, ValueError, IndexError):
+            return None
+
     def _wait_flag(self, timeout: float) -> bool:
         end = time.monotonic() + timeout
+        ready = self._ready_flag()
         while time.monotonic() < end:
-            if os.path.exists(self.flag):
+            if os.path.exists(ready):
                 return True
             if self.call_done.is_set():
-                return os.path.exists(self.flag)
+                return os.path.exists(ready)
             time.sleep(0.02)
         return False
 
@@ -793,6 +891,7 @@ class _Runner:
         kt = S['kill_time']
         exit_times: dict[int, float] = {}
         all_exited = None
+        cpu0 = {pid: self._cpu(p) for pid, p in self._watched().items()}
         while True:
             now = time.time()
             watched = self._watched()
@@ -817,6 +916,11 @@ class _Runner:
             try:
                 d['status'] = p.status()
                 d['threads'] = p.num_threads()
+                c0, c1 = cpu0.get(pid), self._cpu(p)
+                if c0 is not None and c1 is not None:
+                    # cpu used since the kill: ~0 = idle orphan,
+                    # ~elapsed = spinning
+                    d['cpu_seconds_since_kill'] = round(c1 - c0, 3)
             except self.psutil.Error:
                 pass
             survivors.append(d)
@@ -892,10 +996,21 @@ class _Runner:
                 S.get('victim_pid') == S.get('root_worker_pid'),
             'phase_reached': reached,
             'flag_seconds': S.get('flag_seconds'),
+            'map_rounds_at_kill': S.get('map_rounds_at_kill'),
+            'flag_seen': bool(S.get('flag_seen')),
+            'call_done_before_kill': bool(S.get('call_done_before_kill')),
+            'victim_already_dead': bool(S.get('victim_already_dead')),
             'bound': bound,
             'pre_submit_error': S.get('pre_submit_error'),
         })
         self.finish(r)
+
+    def _cpu(self, p: Any) -> float | None:
+        try:
+            t = p.cpu_times()
+            return t.user + t.system
+        except self.psutil.Error:
+            return None
 
     def _main_stack(self) -> list[str]:
         fr = sys._current_frames().get(self.main_ident)
@@ -933,6 +1048,8 @@ def _runner_main(case_json: str) -> None:
             'error_text': traceback.format_exc()[-1500:],
         })
     timer.cancel()
+    import bqskit
+    R.res['bqskit_file'] = getattr(bqskit, '__file__', None)
     R.res['startup_seconds'] = round(time.time() - R.t0, 3)
     R.res['n_processes'] = len(R.procs)
 
